@@ -2023,6 +2023,11 @@ func runC16(c *Ctx) {
 		nbytes = 20000
 	}
 	x.bytesAll(nbytes)
+	nsort := 800
+	if c.Thorough {
+		nsort = 8000
+	}
+	x.sortKeys(nsort)
 	for i := 0; i < nsig; i++ {
 		sig := c16GenSig(c, i)
 		if err := sig.write(); err != nil {
